@@ -63,3 +63,10 @@ package parser
 //@ func scopeToNode
 //@   loop 1
 //@     invariant len(set) == len(t.Entities) && !isnil(set)
+
+// A Long literal is read as a decimal number: its value and whether it is accepted are those of the
+// decimal reading of the token text (no octal, hex or underscore forms) (C12).
+//@ func (Token) intValue
+//@   props C12
+//@   results r, err
+//@   ensures decimal: (err == nil) == pIntOK(t.Text) && (err == nil ==> r == pInt(t.Text))
